@@ -27,7 +27,7 @@ def chain_for(root, target, exclude_dirs=()):
     suffix, ext, ents = parse_name(target)
     rel = os.path.relpath(os.path.dirname(target), root)
     parts = [] if rel == "." else rel.split(os.sep)
-    if parts and parts[0] in exclude_dirs:
+    if any(p in exclude_dirs for p in parts):
         return []
     dirs = [root]
     for p in parts:
